@@ -43,7 +43,8 @@ S = Suite(
           "serial drivers; workers 1..5; parent thread setting 1 and 4 (parent has solved with "
           "that setting before the fork); cache on/off with footprint, explicit/default halo, "
           "pre-populated cache, repeated met conditions; 16x16 grid, nz=6, modes (16,16); "
-          "quick 36 driver calls, thorough 200",
+          "quick 36 driver calls, thorough 330 (every shape x strategy x worker count x parent "
+          "thread setting)",
     rule="1e-12 of the field maximum for grid/conc/flx; == for names, coordinates, "
          "timestamps, parameters, key order, list length",
 )
@@ -227,11 +228,16 @@ def driver(n_towers, n_steps, strategy, workers, parent_threads, use_cache, foot
 _PAR = ["towers", "time", "both"]
 
 
-def _case(rng, nt, ns, strategy, workers, k):
+def _case(rng, nt, ns, strategy, workers, k, threads=None):
+    import numba
+    threads = threads or [1, 4][(k // 2) % 2]
+    if threads > numba.config.NUMBA_NUM_THREADS:   # numba refuses more than the core count
+        threads = 1
     footprint = (k % 4) != 3
     use_cache = footprint and (k % 2 == 0)
     return dict(n_towers=nt, n_steps=ns, strategy=strategy, workers=workers,
-                parent_threads=[1, 4][(k // 2) % 2], use_cache=use_cache, footprint=footprint,
+                parent_threads=threads, use_cache=use_cache,
+                footprint=footprint,
                 halo=[None, 60.0][(k // 3) % 2], repeat_met=(ns > 1 and k % 3 != 1),
                 prewarm=(use_cache and k % 4 == 0), seed=rng.randrange(10 ** 6),
                 delay_ms=[40, 0, 25][k % 3], workers_from_config=(k % 5 == 4))
@@ -244,13 +250,14 @@ def generate(tier, rng):
         for nt, ns in shapes:
             for strategy in _PAR:
                 for w in (1, 2, 3, 4, 5):
-                    yield "driver", _case(rng, nt, ns, strategy, w, k)
-                    k += 1
+                    for thr in (1, 4):
+                        yield "driver", _case(rng, nt, ns, strategy, w, k, thr)
+                        k += 1
             for strategy in ("timeseries", "multitower"):
-                for _ in range(2):
-                    yield "driver", _case(rng, nt, ns, strategy, 1, k)
+                for thr in (1, 4):
+                    yield "driver", _case(rng, nt, ns, strategy, 1, k, thr)
                     k += 1
-        for _ in range(29):
+        for _ in range(24):
             yield "driver", _case(rng, rng.choice((1, 2, 3)), rng.choice((1, 2, 3)),
                                   rng.choice(_PAR), rng.choice((1, 2, 3, 4, 5)), k)
             k += 1
